@@ -625,15 +625,41 @@ class World:  # pylint: disable=too-many-instance-attributes,too-many-public-met
         via = op.get('via', 'bytes')
         if via == 'bytes':
             got = handle.add_object(data)
-        else:
+        elif via == 'short':
             got = handle.add_streamed_object(self.make_stream(data, 'short', op.get('seed', 0)))
+        else:
+            # through the direct-to-pack path: 'pack' (holes allowed), 'pack_nh2' (no_holes, read twice), 'pack_nh1'
+            got = handle.add_objects_to_pack(
+                [data],
+                compress=bool(op.get('compress', False)),
+                no_holes=via != 'pack',
+                no_holes_read_twice=via != 'pack_nh1',
+            )[0]
         if got != key:
             self.fail('wrong-key', f'damage_readd returned {got} expected {key}')
-        with SIM.quiet():
-            with open(path, 'rb') as fhandle:
-                now = fhandle.read()
-        if now != data:
-            self.fail('damaged-loose-not-repaired', f'key={key[:12]} how={how} loose file still wrong after re-adding')
+        if via in ('bytes', 'short'):
+            with SIM.quiet():
+                with open(path, 'rb') as fhandle:
+                    now = fhandle.read()
+            if now != data:
+                self.fail('damaged-loose-not-repaired', f'key={key[:12]} how={how} loose file still wrong after re-adding')
+        else:
+            # a correct copy must be in place: the object reads back right (the packed copy takes precedence) ...
+            with SIM.quiet():
+                now = handle.get_object_content(key)
+            if now != data:
+                self.fail(
+                    'damaged-loose-not-repaired',
+                    f'key={key[:12]} how={how} via={via}: content re-added through the pack path, but the object still reads back damaged',
+                )
+            # ... and the usual clean-up then drops the damaged, now redundant loose copy
+            handle.clean_storage()
+            if os.path.exists(path):
+                with SIM.quiet():
+                    with open(path, 'rb') as fhandle:
+                        now = fhandle.read()
+                if now != data:
+                    self.fail('damaged-loose-not-repaired', f'key={key[:12]} via={via}: damaged loose copy survives clean_storage')
         return {'readded': key}
 
 
